@@ -143,7 +143,8 @@ for i in range(S.budget):
                 except Exception as e:
                     ref = ('exc', type(e).__name__)
                 fw.use_sf, fw.use_sqrtcx = saved
-                if snapshot != ref and not (isinstance(snapshot, (list, tuple)) and snapshot and snapshot[0] == 'exc' and ref and ref[0] == 'exc'):
+                if snapshot != ref and not (isinstance(snapshot, (list, tuple)) and snapshot and snapshot[0] == 'exc'
+                                        and isinstance(ref, (list, tuple)) and ref and ref[0] == 'exc'):
                     S.violation(f'C08:history:{n}', f'{n} returned {str(snapshot)[:120]} after the history but {str(ref)[:120]} in a fresh state',
                                 history=[list(h) for h in hist], args=a, switches=saved)
                     bad = True
